@@ -142,6 +142,8 @@ pub fn gen_layout(rng: &mut Rng) -> Layout {
                 2 => "___exi".to_string(),
                 3 => String::new(),
                 4 => "_exit".to_string(),
+                // names that are not identifier-like (FILE symbols with blanks, non-ASCII, control characters)
+                5 => rng.pick(&["hello world.c", "a b", "caf\u{e9}.c", "\u{3042}", "tab\there", "___exit ", " ___exit", "x\u{1}y", "sp ace/___exit"]).to_string(),
                 _ => {
                     let n = 1 + rng.below(24) as usize;
                     graphic(rng, n)
